@@ -269,7 +269,11 @@ def execC (ms : MacroSem) : Nat → CStmt → MState → Except Stuck MState
         let v ← evalC ms σ e
         let v ← convC (typeOfC e) utT v
         .ok { σ with locals := setLocal (setLocal σ.locals "jump_flag" (.bool true)) "jump_target" v }
-    | .exprstmt _ => .error (.undef "hybrid: use execCH")
+    | .exprstmt e => do
+        -- a bare value (`riV;`): evaluated and discarded, the state is unchanged (as in `execCH`); a value with a side
+        -- effect (`i++;`) is outside the pure semantics: `evalC` rejects it
+        let _ ← evalC ms σ e
+        .ok σ
     | .ret _ => .error (.undef "hybrid: use execCH")
     | .vcall _ _ _ _ => .error (.undef "hybrid: use execCH")
     | .skip w =>
